@@ -101,7 +101,7 @@ def equalities(I, facts):
             for sym, val in subs:
                 q = q.subs(sym, val)
             for s_ in sorted(q.symbols(), key=lambda n: (not n.startswith("t."), not n.startswith("u."), n)):
-                if "(" in s_ or s_ == "theta":
+                if "(" in s_ or s_ in ("theta", "pi"):
                     continue
                 c = q.coeff_of(s_)
                 rest = q.without(s_)
